@@ -181,8 +181,14 @@ func podYAML(w *Workload, name, owner string) string {
 		nsLine = ""
 	}
 	return "apiVersion: v1\nkind: Pod\nmetadata:\n  name: " + q(name) + nsLine + "\n  labels: " + mapYAML(w.Labels) + "\n" + owner +
-		"spec:\n" + podSpecYAML("  ", w.Ports) +
-		"status:\n  hostIP: " + q(host) + "\n  podIP: " + q(ip) + "\n  podIPs: [{ip: " + q(ip) + "}]\n"
+		"spec:\n" + podSpecYAML("  ", w.Ports) + podStatusYAML(w, host, ip)
+}
+
+func podStatusYAML(w *Workload, host, ip string) string {
+	if w.Pending {
+		return "status: {phase: Pending}\n"
+	}
+	return "status:\n  hostIP: " + q(host) + "\n  podIP: " + q(ip) + "\n  podIPs: [{ip: " + q(ip) + "}]\n"
 }
 
 func npPortYAML(p NPPort) string {
